@@ -292,4 +292,19 @@ theorem resolves_balanced_stable (hb : ∀ kv ∈ tbl, Balanced kv.2) (s : Toks)
   refine ⟨r, ⟨max n n0, ?_, hr⟩, ⟨n, hn, hr⟩⟩
   rw [resolve_eq_id_of_stableRun _ s seen (h0 _ (Nat.le_max_right n n0)), hid]
 
+/-- on an eventually-stable run the big-step reading does not depend on `norm` (any table) -/
+theorem resolves_norm_iff_id_of_stable {s : Toks} {seen : List Toks}
+    (hst : ∃ n0, ∀ n, n0 ≤ n → stableRun norm n tbl s seen = true) (r : Res) :
+    Resolves norm tbl s seen r ↔ Resolves id tbl s seen r := by
+  obtain ⟨n0, h0⟩ := hst
+  constructor
+  · rintro ⟨n, hn, hne⟩
+    refine ⟨max n n0, ?_, hne⟩
+    rw [← resolve_eq_id_of_stableRun _ s seen (h0 _ (Nat.le_max_right n n0)),
+      resolve_fuel_mono norm tbl (Nat.le_max_left n n0) s seen (by rw [hn]; exact hne), hn]
+  · rintro ⟨n, hn, hne⟩
+    refine ⟨max n n0, ?_, hne⟩
+    rw [resolve_eq_id_of_stableRun _ s seen (h0 _ (Nat.le_max_right n n0)),
+      resolve_fuel_mono id tbl (Nat.le_max_left n n0) s seen (by rw [hn]; exact hne), hn]
+
 end Ytk.Resolver
